@@ -316,6 +316,14 @@ func (g *GuardEngine) Requires(fn *ssa.Function) []lockReq {
 		if a.Write {
 			mode = modeW
 		}
+		// a container handed, together with its lock, to a helper that operates on it under that lock
+		// (lookup(&x.mu, x.table, key)): reading the field to pass it on is harmless when the field is never
+		// re-assigned after construction; the operations inside the helper are judged with the helper's locks
+		// translated to this call site
+		if ok && g.handedOverUnderLock(a, key) {
+			g.NProp++
+			continue
+		}
 		if !ok {
 			addReq(lockReq{Key: "?unresolved:" + fk, Mode: mode, Field: fk, Pos: a.Ins.Pos(), Origin: name + "|" + fk + "|" + rw(a.Write), Chain: []string{fmt.Sprintf("%s: %s of %s (base path unresolved)", g.P.pos(a.Ins.Pos()), a.What, fk)}})
 			continue
@@ -848,4 +856,84 @@ func varargsOfPureInvoker(p *Prog, st *ssa.Store, f *ssa.Function) bool {
 		}
 	}
 	return false
+}
+
+// handedOverUnderLock: access a is the load of a map or slice field whose value is used only as an argument of static
+// calls; the field is write-once (stored only on objects under construction); and every operation the callees perform
+// on the corresponding parameter happens with the required lock (key, in the caller's terms) held inside the callee,
+// in a sufficient mode. The parameter must not escape from the callee.
+func (g *GuardEngine) handedOverUnderLock(a *Access, key string) bool {
+	ld, ok := a.Ins.(*ssa.UnOp)
+	if !ok || a.Write || a.What != "load" || ld.Referrers() == nil || len(*ld.Referrers()) == 0 {
+		return false
+	}
+	switch ld.Type().Underlying().(type) {
+	case *types.Map, *types.Slice:
+	default:
+		return false
+	}
+	for _, st := range g.P.fieldStores(a.Field) {
+		if fa, isFA := st.Addr.(*ssa.FieldAddr); !isFA || !isLocalObject(pathOf(fa.X)) {
+			return false // re-assigned on a shared object: the field itself needs the lock
+		}
+	}
+	for _, ref := range *ld.Referrers() {
+		call, isCall := ref.(*ssa.Call)
+		if !isCall {
+			return false
+		}
+		h := call.Call.StaticCallee()
+		if h == nil || !g.P.Analysed(h) || h.Blocks == nil {
+			return false
+		}
+		for i, arg := range call.Call.Args {
+			if arg != ssa.Value(ld) {
+				continue
+			}
+			if i >= len(h.Params) || h.Params[i].Referrers() == nil {
+				return false
+			}
+			for _, use := range *h.Params[i].Referrers() {
+				need := modeR
+				switch x := use.(type) {
+				case *ssa.Lookup:
+					if x.X != ssa.Value(h.Params[i]) {
+						return false
+					}
+				case *ssa.Range:
+				case *ssa.MapUpdate:
+					if x.Map != ssa.Value(h.Params[i]) {
+						return false
+					}
+					need = modeW
+				case *ssa.Call:
+					b, isB := x.Call.Value.(*ssa.Builtin)
+					if !isB {
+						return false
+					}
+					switch b.Name() {
+					case "len":
+					case "delete":
+						need = modeW
+					default:
+						return false
+					}
+				case *ssa.DebugRef:
+					continue
+				default:
+					return false // returned, stored, captured: the container escapes the helper
+				}
+				held := 0
+				for k, m := range g.LE.HeldAt(use) {
+					if tk, okT := translateKey(h, k, call.Call.Args); okT && g.canonString(tk) == key && m > held {
+						held = m
+					}
+				}
+				if held < need {
+					return false
+				}
+			}
+		}
+	}
+	return true
 }
